@@ -366,6 +366,9 @@ def _r5_routes(run):
         for a in shifts:
             if a[2][0] == ("attr", pos, "x"):
                 d = a[2][1]
+        if d is None and common.unfollowed_project_calls(project, idx):
+            run.undecided("C04.R5", f, e.node, "create_single_tile: the child index %s is computed by a helper that is not followed" % show(idx)[:80], kind="route-single-tile-helper")
+            return
         if d is None:
             problems.append("child index %s does not use the bits of pos.x" % show(idx)[:100])
         else:
